@@ -232,3 +232,22 @@ def image_separation(ops, frac, M=None):
         d, idx = tree.query((P + np.array(cell)) @ M, k=kmax)
         scan(d, idx)
     return best
+
+
+def answer_digest(ans):
+    """digest of an answer as a user can observe it (library objects through their projections), order-sensitive"""
+    def proj(o, depth=0):
+        import scipy.sparse as sp
+
+        if depth > 10:
+            return "<deep>"
+        if isinstance(o, (list, tuple)):
+            return [proj(x, depth + 1) for x in o]
+        if isinstance(o, dict):
+            return {repr(k): proj(v, depth + 1) for k, v in o.items()}
+        if isinstance(o, np.ndarray) or sp.issparse(o) or isinstance(o, (str, bytes, int, float, bool, type(None), np.generic)):
+            return o
+        if hasattr(o, "__dict__"):
+            return proj(_objproj(o), depth + 1)
+        return o
+    return digest(repr(canon(proj(ans))))
